@@ -131,7 +131,7 @@ def axis_set(Ls, ks, ss, ps, ds):
 def nn_consts(quick):
     if quick:
         return dict(MaxBasis=6, AxisSet=axis_set((1, 2, 3, 4, 5), (1, 2, 3), (1, 2, 3), (0, 1, 2), (1, 2)),
-                    Axis2Set=tlc.Raw("{<<3,2,1,0,1>>, <<4,2,2,1,1>>, <<3,3,1,1,2>>, <<2,1,3,0,1>>, <<4,3,2,2,1>>, <<2,3,1,0,1>>, <<1,3,1,0,1>>}"),
+                    Axis2Set=tlc.Raw("{<<3,2,1,0,1>>, <<4,2,2,1,1>>, <<3,3,1,1,2>>, <<2,1,3,0,1>>, <<4,3,2,2,1>>, <<2,3,1,0,1>>, <<1,3,1,0,1>>, <<5,2,2,0,2>>}"),
                     NCSet=tlc.Raw("{<<1,1,1>>, <<2,2,2>>, <<1,2,1>>}"))
     return dict(MaxBasis=12, AxisSet=axis_set((1, 2, 3, 4, 5, 6), (1, 2, 3), (1, 2, 3), (0, 1, 2), (1, 2)),
                 Axis2Set=axis_set((2, 3, 4), (1, 2, 3), (1, 2), (0, 1), (1, 2)) ,
